@@ -225,6 +225,9 @@ def _output(built, case, op):
             sp.save_experiments_csv(b, exps, os.path.join(d, "x"))
             out["csv"] = [list(open(os.path.join(d, "x_%d.csv" % k), "rb").read()) for k in range(len(exps))
                           if os.path.exists(os.path.join(d, "x_%d.csv" % k))]
+    with ir.quiet() as pbuf:
+        sp.print_experiments(b, exps)
+    out["print"] = list(pbuf.getvalue().encode())
     tabs = []
     for tb in op.get("tabs", []):
         if isinstance(tb.get("trials"), dict):           # symbolic selection, resolved against the real length
